@@ -379,6 +379,27 @@ pub fn run_with<C: VCtx>(ctx: &C, zkp: &Zkp<C>, op: &str, a: &[Value]) -> Value 
 
         // ---------- shuffle ----------
         "generators" => es_out::<C>(&ctx.generators(usize_in(&a[0]), &hex_in(&a[1]))),
+        // k threads ask for the same generators at the same moment (barrier), then the calling thread asks for twice as many:
+        // [k, n, seed] -> [[list per thread...], longer list]
+        "generators_threads" => {
+            let k = usize_in(&a[0]);
+            let n = usize_in(&a[1]);
+            let seed = hex_in(&a[2]);
+            let bar = std::sync::Barrier::new(k);
+            let per: Vec<Value> = std::thread::scope(|sc| {
+                let hs: Vec<_> = (0..k)
+                    .map(|_| {
+                        let (seed, bar) = (&seed, &bar);
+                        sc.spawn(move || {
+                            bar.wait();
+                            es_out::<C>(&ctx.generators(n, seed))
+                        })
+                    })
+                    .collect();
+                hs.into_iter().map(|h| h.join().unwrap_or(json!("panic"))).collect()
+            });
+            json!([per, es_out::<C>(&ctx.generators(2 * n, &seed))])
+        }
         "gen_permutation" => {
             rng::install(hex_in(&a[1]));
             let p = strand::shuffler::verif::gen_permutation(usize_in(&a[0]));
